@@ -22,34 +22,41 @@ set_option linter.unusedSimpArgs false
 /-- `_succeed_workflow` under arbitrary interference: EITHER the committed row is exactly what the
     interferers made it (the script contributed nothing, reports nothing to a parent, its flag is
     false) OR its compare-and-swap matched the row `rc` of that instant, whose state is still the
-    state `rr` showed at the script's read (a state from which SUCCESS is a valid move), and the
-    commit installs state, output, state_info and accepted TOGETHER on that row (`winRow`); the
-    interferers of the later gaps (they wait for the row lock) act on that complete row. -/
+    state `rr` showed at the script's read — not finished (is_completed guard, repo fix ce9b9520) and
+    a state from which SUCCESS is a valid move — and the commit installs state, output, state_info
+    and accepted TOGETHER on that row (`winRow`); the interferers of the later gaps (they wait for the
+    row lock) act on that complete row. -/
 theorem succeed_atomic (sched : Nat → Intf) (vars : Fields) (row0 : Row) :
-    ((runWith succeedWorkflow sched vars row0).sh.db = pre sched 11 row0 ∧ (runWith succeedWorkflow sched vars row0).l.flags 0 = false ∧ (runWith succeedWorkflow sched vars row0).l.emitted = []) ∨
-    ((pre sched 1 row0).alive = true ∧ memVals validFromSuccess ((pre sched 1 row0).f 0) = true ∧ (pre sched 4 row0).alive = true ∧ (pre sched 4 row0).f 0 = (pre sched 1 row0).f 0 ∧
-      (runWith succeedWorkflow sched vars row0).sh.db = between sched 4 7 (winRow (.str "SUCCESS") (vars 1) (vars 2) (pre sched 1 row0) (pre sched 4 row0)) ∧ (runWith succeedWorkflow sched vars row0).l.flags 0 = true ∧
+    ((runWith succeedWorkflow sched vars row0).sh.db = pre sched 12 row0 ∧ (runWith succeedWorkflow sched vars row0).l.flags 0 = false ∧ (runWith succeedWorkflow sched vars row0).l.emitted = []) ∨
+    ((pre sched 1 row0).alive = true ∧ memVals completedStates ((pre sched 1 row0).f 0) = false ∧ memVals validFromSuccess ((pre sched 1 row0).f 0) = true ∧
+      (pre sched 5 row0).alive = true ∧ (pre sched 5 row0).f 0 = (pre sched 1 row0).f 0 ∧
+      (runWith succeedWorkflow sched vars row0).sh.db = between sched 5 7 (winRow (.str "SUCCESS") (vars 1) (vars 2) (pre sched 1 row0) (pre sched 5 row0)) ∧ (runWith succeedWorkflow sched vars row0).l.flags 0 = true ∧
       (runWith succeedWorkflow sched vars row0).l.emitted = if ((pre sched 1 row0).f 4).truthy then [1] else []) := by
   by_cases h1 : (pre sched 1 row0).alive = true
-  · by_cases h2 : memVals validFromSuccess ((pre sched 1 row0).f 0) = true
-    · by_cases h3 : (pre sched 4 row0).alive = true ∧ (pre sched 4 row0).f 0 = (pre sched 1 row0).f 0
-      · right
-        obtain ⟨h3a, h3b⟩ := h3
-        refine ⟨h1, h2, h3a, h3b, ?_⟩
-        simp only [pre, validFromSuccess] at h1 h2 h3a h3b
-        simp only [succeedWorkflow]
-        by_cases h4 : vars 1 = (sched 0 row0).f 1 <;> by_cases h5 : Val.bool true = (sched 0 row0).f 3 <;>
-          by_cases h6 : ((sched 0 row0).f 4).truthy = true <;>
-          (race_simp [h1, h2, h3a, h3b, h4, h5, h6, winRow]
-           try race_rows)
-      · left
-        simp only [pre, validFromSuccess] at h1 h2 h3
-        simp only [succeedWorkflow]
-        race_simp [h1, h2, h3]
+  · by_cases h0 : memVals completedStates ((pre sched 1 row0).f 0) = true
     · left
-      simp only [pre, validFromSuccess] at h1 h2
+      simp only [pre, completedStates] at h1 h0
       simp only [succeedWorkflow]
-      race_simp [h1, h2]
+      race_simp [h1, h0]
+    · by_cases h2 : memVals validFromSuccess ((pre sched 1 row0).f 0) = true
+      · by_cases h3 : (pre sched 5 row0).alive = true ∧ (pre sched 5 row0).f 0 = (pre sched 1 row0).f 0
+        · right
+          obtain ⟨h3a, h3b⟩ := h3
+          refine ⟨h1, by simpa using h0, h2, h3a, h3b, ?_⟩
+          simp only [pre, validFromSuccess, completedStates] at h1 h0 h2 h3a h3b
+          simp only [succeedWorkflow]
+          by_cases h4 : vars 1 = (sched 0 row0).f 1 <;> by_cases h5 : Val.bool true = (sched 0 row0).f 3 <;>
+            by_cases h6 : ((sched 0 row0).f 4).truthy = true <;>
+            (race_simp [h1, h0, h2, h3a, h3b, h4, h5, h6, winRow]
+             try race_rows)
+        · left
+          simp only [pre, validFromSuccess, completedStates] at h1 h0 h2 h3
+          simp only [succeedWorkflow]
+          race_simp [h1, h0, h2, h3]
+      · left
+        simp only [pre, validFromSuccess, completedStates] at h1 h0 h2
+        simp only [succeedWorkflow]
+        race_simp [h1, h0, h2]
   · left
     simp only [pre] at h1
     simp only [succeedWorkflow]
@@ -154,35 +161,16 @@ theorem cancel_keeps_finished (sched : Nat → Intf) (vars : Fields) (row0 : Row
   · exact h
   · rw [heq] at hfin; rw [hfin] at hn; cases hn
 
-/-- For `_succeed_workflow` the full statement is FALSE of the code: it has no is_completed guard and
-    SUCCESS -> SUCCESS is a valid (identity) transition, so on a row that is already SUCCESS its
-    compare-and-swap matches and state_info / output are written again (no interference needed: this
-    is the transaction-granularity finding `second-stop-success-rewrites-message`, C11). -/
-theorem succeed_keeps_finished_full_fails :
-    ¬ (∀ (sched : Nat → Intf) (vars : Fields) (row0 : Row),
-        memVals completedStates ((pre sched 4 row0).f 0) = true →
-        (runWith succeedWorkflow sched vars row0).sh.db = pre sched 11 row0) := by
-  intro h
-  have := h (fun _ r => r) (fun _ => .null)
-    { alive := true, f := fun k => if k = 0 then .str "SUCCESS" else if k = 1 then .str "by operator" else .null }
-    (by simp [pre, memVals, completedStates])
-  have h1 := congrArg (fun r => r.f 1) this
-  simp only [succeedWorkflow] at h1
-  race_simp_at h1 [memVals, Val.truthy]
-
-/-- .. and it holds whenever the row was finished as anything but SUCCESS (ERROR, CANCELLED: every
-    stop / failure racing the success path) -/
-theorem succeed_keeps_finished_partial (sched : Nat → Intf) (vars : Fields) (row0 : Row)
-    (hfin : memVals completedStates ((pre sched 4 row0).f 0) = true)
-    (hns : (pre sched 4 row0).f 0 ≠ .str "SUCCESS") :
-    (runWith succeedWorkflow sched vars row0).sh.db = pre sched 11 row0 ∧ (runWith succeedWorkflow sched vars row0).l.flags 0 = false ∧ (runWith succeedWorkflow sched vars row0).l.emitted = [] := by
-  rcases succeed_atomic sched vars row0 with h | ⟨_, hv, _, heq, _⟩
+/-- the same for `_succeed_workflow` (completion check of a successful run, stop(SUCCESS)).  Before
+    repo fix ce9b9520 this was FALSE (`succeed_keeps_finished_full_fails`: no is_completed guard and
+    SUCCESS -> SUCCESS is an identity transition: a row already SUCCESS was rewritten); with the guard
+    it is the full statement. -/
+theorem succeed_keeps_finished (sched : Nat → Intf) (vars : Fields) (row0 : Row)
+    (hfin : memVals completedStates ((pre sched 5 row0).f 0) = true) :
+    (runWith succeedWorkflow sched vars row0).sh.db = pre sched 12 row0 ∧ (runWith succeedWorkflow sched vars row0).l.flags 0 = false ∧ (runWith succeedWorkflow sched vars row0).l.emitted = [] := by
+  rcases succeed_atomic sched vars row0 with h | ⟨_, hn, _, _, heq, _⟩
   · exact h
-  · rw [← heq] at hv
-    simp [memVals, validFromSuccess, completedStates] at hv hfin
-    rcases hv with hv | hv
-    · rw [hv] at hfin; simp at hfin
-    · exact absurd hv hns
+  · rw [heq] at hfin; rw [hfin] at hn; cases hn
 
 /-- "exactly one of completer / stopper determines (state, output) together": whatever commits in
     between, the committed row is either the interferers' row untouched by the script, or it carries
@@ -203,9 +191,9 @@ theorem cancel_state_output_together (sched : Nat → Intf) (vars : Fields) (row
   · exact Or.inr ⟨_, h, by simp [winRow], by simp [winRow]⟩
 
 theorem succeed_state_output_together (sched : Nat → Intf) (vars : Fields) (row0 : Row) :
-    (runWith succeedWorkflow sched vars row0).sh.db = pre sched 11 row0 ∨
-    ∃ W : Row, (runWith succeedWorkflow sched vars row0).sh.db = between sched 4 7 W ∧ W.f 0 = .str "SUCCESS" ∧ W.f 2 = vars 2 := by
-  rcases succeed_atomic sched vars row0 with h | ⟨_, _, _, _, h, _⟩
+    (runWith succeedWorkflow sched vars row0).sh.db = pre sched 12 row0 ∨
+    ∃ W : Row, (runWith succeedWorkflow sched vars row0).sh.db = between sched 5 7 W ∧ W.f 0 = .str "SUCCESS" ∧ W.f 2 = vars 2 := by
+  rcases succeed_atomic sched vars row0 with h | ⟨_, _, _, _, _, h, _⟩
   · exact Or.inl h.1
   · exact Or.inr ⟨_, h, by simp [winRow], by simp [winRow]⟩
 
@@ -238,10 +226,9 @@ example : let x := runWith failWorkflow (fun _ r => r) scriptVars rowRunning
   simp only [failWorkflow]
   race_simp [memVals, Val.truthy, rowRunning, scriptVars]
 
-/-- the same race against the success path: hypothesis of `succeed_keeps_finished_partial` -/
-example : memVals completedStates ((pre (cancelBetween 2) 4 rowRunning).f 0) = true ∧
-    (pre (cancelBetween 2) 4 rowRunning).f 0 ≠ .str "SUCCESS" ∧
-    (runWith succeedWorkflow (cancelBetween 2) scriptVars rowRunning).sh.db.f 2 = .str "stop-out" := by
+/-- the same race against the success path: hypothesis of `succeed_keeps_finished` -/
+example : memVals completedStates ((pre (cancelBetween 3) 5 rowRunning).f 0) = true ∧
+    (runWith succeedWorkflow (cancelBetween 3) scriptVars rowRunning).sh.db.f 2 = .str "stop-out" := by
   simp only [succeedWorkflow, cancelWorkflow, completedStates]
   race_simp [memVals, Val.truthy, cancelBetween, atomicOf, rowRunning, scriptVars, stopVars, cancelWorkflow]
 
